@@ -110,10 +110,11 @@ def conn_term(res, stream_parts, late_spec, cmp_relay, reads=None, iters=None):
     echo_t = "Lit (@nil N)" if echo["len"] == 0 else "Dig %d%%N %s%%N" % (echo["len"], echo["hash"])
     rf = res.get("relay_first")
     replay_t = "None" if not rf else "(Some (%d%%N, %s%%N))" % (rf["len"], rf["hash"])
-    return ("(%s Build_conn_case %s %s %s %s %s %s\n   %s %s %s\n   %s %s %s (%s) (%s) %s)"
+    used = res.get("status_open", res.get("status")) == 1      # looked at while the tunnel was still open
+    return ("(%s Build_conn_case %s %s %s %s %s %s\n   %s %s %s\n   %s %s %s (%s) (%s) %s %s)"
             % (" ".join(binds), regs, revs, marks, gbool(hs), gN(res["tracked"]), glist(res["ts"], lambda t: gN(TCODE[t])),
-               glist(parts), glist(rd, gN), iters_t, gopt(found), gbool(res.get("status") == 1), gbool(cmp_relay),
-               late_spec, echo_t, replay_t))
+               glist(parts), glist(rd, gN), iters_t, gopt(found), gbool(used), gbool(cmp_relay),
+               late_spec, echo_t, gbool(bool(res.get("mark_first", found is not None))), replay_t))
 
 
 def gen_cases(ctx, table):
@@ -125,11 +126,12 @@ def gen_cases(ctx, table):
         flen[("prefix", r["id"])] = r["offset"] + 64
     sets = [("min", 0)] + [("prefix", r["id"]) for r in table]
     oi = itertools.count()
+    ki = itertools.count()
 
     def mk(tr, pid, **kw):
         c = {"transport": tr, "prefix_id": pid, "flush": 0, "rand_port": False, "cuts": [], "natural": False,
              "data_len": 0, "data_seed": rng.randrange(1, 1 << 30), "late_len": 16, "late_seed": rng.randrange(1, 1 << 30),
-             "delay_ms": 0, "banner_len": 0, "banner_seed": rng.randrange(1, 1 << 30),
+             "delay_ms": 0, "banner_len": 0, "banner_seed": rng.randrange(1, 1 << 30), "key": next(ki) % 3, "sweep": False,
              "others": OTHERS[next(oi) % len(OTHERS)], "kind": "?"}
         c.update(kw)
         cases.append(c)
@@ -157,6 +159,15 @@ def gen_cases(ctx, table):
             for rp in (False, True):
                 for dl in (0, 8):
                     mk(tr, pid, flush=flush, rand_port=rp, natural=True, data_len=dl, kind="natural")
+    # the station holds three private keys (rotation): every prefix id with the tag obfuscated to each of them
+    for tr, pid in sets:
+        if tr == "prefix":
+            for key in range(3):
+                mk(tr, pid, natural=True, data_len=5, key=key, kind="key%d" % key)
+    # while the tunnel is open, 11 minutes pass for the registration and the expiry sweep runs
+    for tr, pid in sets:
+        L = flen[(tr, pid)]
+        mk(tr, pid, cuts=[L // 2], data_len=8, sweep=True, kind="sweep")
     # every 1-cut of flight (+ early data).  Without early data the client then stays silent and the
     # covert speaks first (a banner): the flight alone, exactly at its threshold length, must do.
     for tr, pid in sets:
@@ -222,6 +233,7 @@ def gen_cases(ctx, table):
             mk("obfs4", 0, cuts=cs, data_len=dl, rand_port=rng.random() < 0.5, kind="obfs4")
     for cs in ocuts[::3]:
         mk("obfs4", 0, cuts=cs, data_len=0, late_len=0, banner_len=24, kind="obfs4")
+    mk("obfs4", 0, cuts=[100], data_len=20, sweep=True, kind="sweep")
     for _ in range(20 if quick else 300):
         k = rng.randrange(1, 7)
         cs = sorted(set(rng.choice([rng.randrange(1, 8192), -rng.randrange(1, 140)]) for _ in range(k)))
@@ -239,8 +251,8 @@ def oracle(ctx, c, r):
     want = bytes(lcg_bytes(c["data_seed"], c["data_len"])) + bytes(lcg_bytes(c["late_seed"], c["late_len"]))
     want_reply = bytes(lcg_bytes(c.get("banner_seed", 1), c.get("banner_len", 0))) + want
     brief = {k: c[k] for k in ("transport", "prefix_id", "flush", "rand_port", "cuts", "natural", "data_len", "data_seed",
-                               "late_len", "late_seed", "delay_ms", "banner_len", "banner_seed", "others")}
-    brief["observed"] = {k: r.get(k) for k in ("err", "found", "found_t", "status", "updates", "segs", "reads", "echo_conns", "returned", "early_answered")}
+                               "late_len", "late_seed", "delay_ms", "banner_len", "banner_seed", "key", "sweep", "others")}
+    brief["observed"] = {k: r.get(k) for k in ("err", "found", "found_t", "status", "updates", "segs", "reads", "echo_conns", "returned", "early_answered", "status_open", "updates_open", "swept", "mark_first")}
     brief["observed"]["echo_len"] = (r.get("echo") or {}).get("len")
     brief["observed"]["reply_len"] = (r.get("reply") or {}).get("len")
     brief["sent_len"] = len(want)
@@ -268,9 +280,18 @@ def oracle(ctx, c, r):
         ctx.fail(base + ":early-data-stalled", "the covert's answer to the client's early data (or its banner) only arrived after the client "
                  "sent more: bytes that came with the flight were not relayed until then (segments %s)" % r.get("segs"), brief)
         bad = True
-    if r.get("status") != 1 or r.get("updates", 0) < 1:
+    if r.get("status_open") != 1 or r.get("updates_open", 0) < 1:
+        ctx.fail(base + ":not-marked-used", "while its tunnel was open (the client had its answers and had not closed) the registration was "
+                 "not marked as used / no Update had been published (status %s, updates %s; after the session: status %s, updates %s)"
+                 % (r.get("status_open"), r.get("updates_open"), r.get("status"), r.get("updates")), brief)
+        bad = True
+    elif r.get("swept") != 1 and (r.get("status") != 1 or r.get("updates", 0) < 1):
         ctx.fail(base + ":not-marked-used", "registration not marked as used after its connection (status %s, updates %s)"
                  % (r.get("status"), r.get("updates")), brief)
+        bad = True
+    if r.get("swept") == 1:
+        ctx.fail(base + ":swept-under-open-tunnel", "the expiry sweep removed the registration of an open tunnel 11 minutes after it was "
+                 "registered (an unused registration lives 10 minutes, a used one 6 hours)", brief)
         bad = True
     if r.get("echo_conns") != 1:
         ctx.fail(base + ":covert-dials", "covert destination dialled %s times" % r.get("echo_conns"), brief)
@@ -477,7 +498,7 @@ def run(ctx):
         r = results[i]
         ctx.sample({"case": {k: cases[i][k] for k in ("transport", "prefix_id", "cuts", "data_len", "natural", "kind")},
                     "observed": {k: r.get(k) for k in ("found_t", "segs", "reads", "status", "updates")}})
-    kinds = ["phantom:v4", "phantom:v6", "min/natural/ok", "min/1cut/ok", "min/1cut-banner/ok", "prefix/1cut-banner/ok", "min/2cut/ok", "prefix/natural/ok", "prefix/1cut/ok", "prefix/2cut/ok",
+    kinds = ["phantom:v4", "phantom:v6", "prefix/key0/ok", "prefix/key1/ok", "prefix/key2/ok", "min/sweep/ok", "prefix/sweep/ok", "obfs4/sweep/ok", "min/natural/ok", "min/1cut/ok", "min/1cut-banner/ok", "prefix/1cut-banner/ok", "min/2cut/ok", "prefix/natural/ok", "prefix/1cut/ok", "prefix/2cut/ok",
              "prefix/early/ok", "prefix/paced/ok", "obfs4/obfs4/ok", "min/fill/ok", "prefix/fill/ok", "min/bytewise/ok", "prefix/bytewise/ok", "min/paced/ok"]
     if not ctx.known and not os.environ.get("VERIF_C04_ONLY") and not ctx.replay:
         ctx.require_kinds(kinds)
